@@ -5,6 +5,7 @@ import (
 	"flag"
 	"fmt"
 	"os"
+	"os/exec"
 	"path/filepath"
 	"sort"
 	"strconv"
@@ -171,6 +172,15 @@ func runCheck(prop, tier, repo, verif string, keep bool, only string, verbose bo
 	if err != nil {
 		return engineFailure(prop, tier, verif, seed, t0, "loading contracts: "+err.Error())
 	}
+	// the standard-library facts the preludes assume are re-checked against the real
+	// functions on small inputs by every run (a false axiom would make proofs vacuous)
+	if bin := filepath.Join(verif, "bin", "validate_axioms"); fileExists(bin) {
+		out, aerr := exec.Command(bin).CombinedOutput()
+		if aerr != nil {
+			return engineFailure(prop, tier, verif, seed, t0, "a library axiom of /verif/spec is contradicted by the real function: "+strings.TrimSpace(string(out)))
+		}
+		v.noteAssumed("library axioms of /verif/spec/*.smt2 (bytes.Join/Split/SplitN/HasPrefix/Compare, slicing, encodings, Sprintf, set counting): " + strings.TrimSpace(string(out)))
+	}
 	cs, pats := v.selectContracts(prop)
 	if len(cs) == 0 {
 		return engineFailure(prop, tier, verif, seed, t0, "no contracts are tagged with "+prop)
@@ -258,4 +268,9 @@ func writeJSON(path string, v interface{}) {
 	os.MkdirAll(filepath.Dir(path), 0o755)
 	b, _ := json.MarshalIndent(v, "", " ")
 	os.WriteFile(path, append(b, '\n'), 0o644)
+}
+
+func fileExists(p string) bool {
+	st, err := os.Stat(p)
+	return err == nil && !st.IsDir()
 }
